@@ -64,7 +64,7 @@ struct Step { std::string op; long n = 0; std::string data; };
 struct Action { std::string label; std::vector<Step> steps; };
 struct ReqSpec
 {
-  int idx = 0, th = 0, budget = 0, refuse = 0, blackhole = 0, gapMs = 0;
+  int idx = 0, th = 0, budget = 0, refuse = 0, blackhole = 0, gapMs = 0, srv = 0, preMs = 0;
   size_t bodyLen = 0;
   std::string method, token, via = "auto";
   std::vector<Action> acts;
@@ -73,6 +73,7 @@ struct CaseSpec
 {
   std::string id;
   int rtMs = 3000, ctMs = 1000, threads = 1, holdMs = 3000, rcvbuf = 0, sleepDiv = 10, capBytes = 0, wdMs = 90000;
+  int nsrv = 1, leaseMs = 0;
   bool keepAlive = true, identToken = false;
   std::vector<ReqSpec> reqs;
 };
@@ -155,6 +156,8 @@ static std::vector<CaseSpec> parseCases(const std::string &path)
       cur.sleepDiv = (int)geti(m, "sdiv", 10);
       cur.capBytes = (int)geti(m, "cap", 0);
       cur.wdMs = (int)geti(m, "wd", 90000);
+      cur.nsrv = std::max(1, (int)geti(m, "nsrv", 1));
+      cur.leaseMs = (int)geti(m, "lease", 0);
     }
     else if (head == "req" && open)
     {
@@ -168,6 +171,8 @@ static std::vector<CaseSpec> parseCases(const std::string &path)
       r.refuse = (int)geti(m, "refuse", 0);
       r.blackhole = (int)geti(m, "blackhole", 0);
       r.gapMs = (int)geti(m, "gap", 0);
+      r.srv = (int)geti(m, "srv", 0);
+      r.preMs = (int)geti(m, "pre", 0);
       r.via = gets_(m, "via", "auto");
       if ((int)cur.reqs.size() <= r.idx) cur.reqs.resize(r.idx + 1);
       cur.reqs[r.idx] = r;
@@ -199,10 +204,18 @@ struct Case
   std::mutex logM;
   std::vector<std::string> ev;
   std::atomic<int> curReq{-1};
-  int port = 0;
-  Server *server = nullptr;
+  int port = 0;                 // port of server 0
+  std::vector<int> ports;       // one per scripted server (distinct host:port values)
+  std::vector<Server *> servers;
+  std::atomic<int> nextCid{0};  // connection ids are unique across the servers of a case
   static const int MAXFD = 4096;
-  std::atomic<int> fdLport[MAXFD];
+  std::atomic<uint32_t> fdLport[MAXFD]; // local port | destination port << 16, 0 = not one of ours
+  int serverIndexOfPort(int p) const
+  {
+    for (size_t i = 0; i < ports.size(); i++) if (ports[i] == p && p != 0) return (int)i;
+    return -1;
+  }
+  static std::string lpdp(uint32_t k) { return "\"lp\":" + std::to_string(k & 0xffff) + ",\"dp\":" + std::to_string(k >> 16); }
   explicit Case(const CaseSpec &s) : spec(s), t0(vf::nowNs())
   {
     for (auto &x : fdLport) x.store(0);
@@ -235,9 +248,9 @@ struct Server
   std::set<int> fillerPorts;
   std::vector<int> arrivals; // per request index
   std::vector<int> connects; // per request index (sequential mode)
-  int nextCid = 0;
+  int sidx = 0, port = 0;
 
-  explicit Server(Case &c) : cs(c), arrivals(c.spec.reqs.size(), 0), connects(c.spec.reqs.size(), 0) {}
+  Server(Case &c, int idx) : cs(c), arrivals(c.spec.reqs.size(), 0), connects(c.spec.reqs.size(), 0), sidx(idx) {}
 
   static void setOpts(int fd)
   {
@@ -259,7 +272,9 @@ struct Server
     if (bind(placeholderFd, (sockaddr *)&a, sizeof a) < 0) return false;
     socklen_t al = sizeof a;
     getsockname(placeholderFd, (sockaddr *)&a, &al);
-    cs.port = ntohs(a.sin_port);
+    port = ntohs(a.sin_port);
+    cs.ports[sidx] = port;
+    if (sidx == 0) cs.port = port;
     wakeFd = eventfd(0, EFD_NONBLOCK | EFD_CLOEXEC);
     acceptTh = std::thread([this] { acceptLoop(); });
     setMode(1);
@@ -278,7 +293,7 @@ struct Server
     sockaddr_in a{};
     a.sin_family = AF_INET;
     a.sin_addr.s_addr = htonl(INADDR_LOOPBACK);
-    a.sin_port = htons((uint16_t)cs.port);
+    a.sin_port = htons((uint16_t)port);
     if (bind(listenFd, (sockaddr *)&a, sizeof a) < 0 || listen(listenFd, 128) < 0)
     {
       cs.log("\"e\":\"srv_error\",\"what\":\"listen failed\",\"errno\":" + std::to_string(errno));
@@ -326,7 +341,7 @@ struct Server
           sockaddr_in a{};
           a.sin_family = AF_INET;
           a.sin_addr.s_addr = htonl(INADDR_LOOPBACK);
-          a.sin_port = htons((uint16_t)cs.port);
+          a.sin_port = htons((uint16_t)port);
           raw::connect(f, (sockaddr *)&a, sizeof a);
           sockaddr_in l{};
           socklen_t ll = sizeof l;
@@ -337,7 +352,7 @@ struct Server
       }
     }
     actualMode = mode;
-    cs.log("\"e\":\"listen\",\"mode\":" + std::to_string(mode));
+    cs.log("\"e\":\"listen\",\"s\":" + std::to_string(sidx) + ",\"mode\":" + std::to_string(mode));
   }
   void setMode(int mode) // any thread; blocks until the accept thread applied it
   {
@@ -399,8 +414,8 @@ struct Server
           int cur = cs.curReq.load();
           {
             std::lock_guard<std::mutex> g(connM);
-            cid = nextCid++;
-            cs.log("\"e\":\"accept\",\"c\":" + std::to_string(cid) + ",\"pp\":" + std::to_string(pp) +
+            cid = cs.nextCid++;
+            cs.log("\"e\":\"accept\",\"c\":" + std::to_string(cid) + ",\"s\":" + std::to_string(sidx) + ",\"sp\":" + std::to_string(port) + ",\"pp\":" + std::to_string(pp) +
                    ",\"cur\":" + std::to_string(cur));
             connThreads.emplace_back([this, c, cid, cur] { connLoop(c, cid, cur); });
           }
@@ -706,13 +721,14 @@ extern "C" int connect(int fd, const struct sockaddr *addr, socklen_t len)
   Case *cs = g_case.load();
   int dport = 0;
   if (addr && addr->sa_family == AF_INET) dport = ntohs(((const sockaddr_in *)addr)->sin_port);
-  bool ours = cs && dport == cs->port && cs->port != 0;
+  int sidx = cs ? cs->serverIndexOfPort(dport) : -1;
+  bool ours = sidx >= 0;
   if (cs && fd >= 0 && fd < Case::MAXFD) cs->fdLport[fd].store(0);
   int cur = -1;
   if (ours)
   {
     cur = cs->curReq.load();
-    if (cs->server) cs->server->onClientConnectAttempt();
+    if (cs->servers.size() == 1 && cs->servers[0]) cs->servers[0]->onClientConnectAttempt();
   }
   int rc = (int)syscall(SYS_connect, fd, addr, len);
   int e = errno;
@@ -722,8 +738,8 @@ extern "C" int connect(int fd, const struct sockaddr *addr, socklen_t len)
     socklen_t ll = sizeof l;
     int lp = 0;
     if (getsockname(fd, (sockaddr *)&l, &ll) == 0) lp = ntohs(l.sin_port);
-    if (fd >= 0 && fd < Case::MAXFD) cs->fdLport[fd].store(lp);
-    cs->log("\"e\":\"c_connect\",\"fd\":" + std::to_string(fd) + ",\"lp\":" + std::to_string(lp) + ",\"rc\":" +
+    if (fd >= 0 && fd < Case::MAXFD) cs->fdLport[fd].store(uint32_t(lp) | (uint32_t(dport) << 16));
+    cs->log("\"e\":\"c_connect\",\"fd\":" + std::to_string(fd) + ",\"lp\":" + std::to_string(lp) + ",\"dp\":" + std::to_string(dport) + ",\"rc\":" +
             std::to_string(rc) + ",\"errno\":" + std::to_string(rc == 0 ? 0 : e) + ",\"cur\":" + std::to_string(cur));
   }
   errno = e;
@@ -737,11 +753,11 @@ extern "C" ssize_t send(int fd, const void *buf, size_t n, int flags)
   Case *cs = g_case.load();
   if (cs && fd >= 0 && fd < Case::MAXFD)
   {
-    int lp = cs->fdLport[fd].load();
+    uint32_t lp = cs->fdLport[fd].load();
     if (lp)
     {
       size_t keep = r > 0 ? std::min<size_t>((size_t)r, n > 65536 ? 600 : 1024) : 0;
-      cs->log("\"e\":\"c_send\",\"fd\":" + std::to_string(fd) + ",\"lp\":" + std::to_string(lp) + ",\"len\":" +
+      cs->log("\"e\":\"c_send\",\"fd\":" + std::to_string(fd) + "," + Case::lpdp(lp) + ",\"len\":" +
               std::to_string((long)r) + ",\"want\":" + std::to_string(n) + ",\"errno\":" + std::to_string(r < 0 ? e : 0) +
               ",\"d\":\"" + vf::hex(buf, keep) + "\"");
     }
@@ -757,10 +773,10 @@ extern "C" ssize_t recv(int fd, void *buf, size_t n, int flags)
   Case *cs = g_case.load();
   if (cs && fd >= 0 && fd < Case::MAXFD && !(r < 0 && (e == EAGAIN || e == EWOULDBLOCK)))
   {
-    int lp = cs->fdLport[fd].load();
+    uint32_t lp = cs->fdLport[fd].load();
     if (lp)
     {
-      cs->log("\"e\":\"c_recv\",\"fd\":" + std::to_string(fd) + ",\"lp\":" + std::to_string(lp) + ",\"len\":" +
+      cs->log("\"e\":\"c_recv\",\"fd\":" + std::to_string(fd) + "," + Case::lpdp(lp) + ",\"len\":" +
               std::to_string((long)r) + ",\"errno\":" + std::to_string(r < 0 ? e : 0));
       t_pollMark = true;
     }
@@ -787,8 +803,8 @@ extern "C" int close(int fd)
   Case *cs = g_case.load();
   if (cs && fd >= 0 && fd < Case::MAXFD)
   {
-    int lp = cs->fdLport[fd].exchange(0);
-    if (lp) cs->log("\"e\":\"c_close\",\"fd\":" + std::to_string(fd) + ",\"lp\":" + std::to_string(lp));
+    uint32_t lp = cs->fdLport[fd].exchange(0);
+    if (lp) cs->log("\"e\":\"c_close\",\"fd\":" + std::to_string(fd) + "," + Case::lpdp(lp));
   }
   return (int)syscall(SYS_close, fd);
 }
@@ -829,14 +845,16 @@ static std::string makeBody(const ReqSpec &r)
 
 static void issue(Case &cs, HttpClient &client, const ReqSpec &r, int th)
 {
-  std::string url = "http://127.0.0.1:" + std::to_string(cs.port) + "/t/" + r.token + "?c=" + cs.spec.id;
+  int sidx = (r.srv >= 0 && r.srv < (int)cs.ports.size()) ? r.srv : 0;
+  if (r.preMs > 0) vf::sleepMs(r.preMs);
+  std::string url = "http://127.0.0.1:" + std::to_string(cs.ports[sidx]) + "/t/" + r.token + "?c=" + cs.spec.id;
   std::string body = makeBody(r);
   std::map<std::string, std::string> hdr{{"X-Tok", r.token}};
   bool pub = r.via != "priv" &&
              ((r.method == "GET" && body.empty()) || (r.method == "HEAD" && body.empty()) ||
               (r.method == "DELETE" && body.empty()) || r.method == "POST");
   cs.log("\"e\":\"call\",\"r\":" + std::to_string(r.idx) + ",\"th\":" + std::to_string(th) + ",\"m\":" + vf::jstr(r.method) +
-         ",\"b\":" + std::to_string(r.budget) + ",\"api\":\"" + (pub ? "public" : "performRequest") + "\"");
+         ",\"b\":" + std::to_string(r.budget) + ",\"srv\":" + std::to_string(sidx) + ",\"api\":\"" + (pub ? "public" : "performRequest") + "\"");
   uint64_t t0 = vf::nowNs();
   std::string exType, exWhat;
   HttpClient::Response resp;
@@ -906,17 +924,21 @@ static void emitCase(Case &cs, bool hang)
 static void runCase(const CaseSpec &spec)
 {
   Case cs(spec);
-  Server srv(cs);
-  cs.server = &srv;
+  cs.ports.assign(spec.nsrv, 0);
+  std::vector<std::unique_ptr<Server>> srvs;
+  for (int i = 0; i < spec.nsrv; i++) srvs.emplace_back(new Server(cs, i));
+  for (auto &sp : srvs) cs.servers.push_back(sp.get());
   g_caseWdMs.store((uint64_t)spec.wdMs);
   g_noiseMaxUs.store(0);
   g_caseStartNs.store(vf::nowNs());
   g_case.store(&cs);
-  if (!srv.start())
+  bool started = true;
+  for (auto &sp : srvs) started = sp->start() && started;
+  if (!started)
   {
     cs.log("\"e\":\"srv_error\",\"what\":\"start failed\"");
     g_case.store(nullptr);
-    srv.shutdown();
+    for (auto &sp : srvs) sp->shutdown();
     emitCase(cs, false);
     return;
   }
@@ -925,6 +947,7 @@ static void runCase(const CaseSpec &spec)
     cfg.connectTimeout = std::chrono::milliseconds(spec.ctMs);
     cfg.requestTimeout = std::chrono::milliseconds(spec.rtMs);
     cfg.reuseConnections = spec.keepAlive;
+    if (spec.leaseMs > 0) cfg.leaseAcquireTimeout = std::chrono::milliseconds(spec.leaseMs);
     if (spec.capBytes > 0)
     {
       cfg.maxResponseBytes = (size_t)spec.capBytes;
@@ -962,7 +985,7 @@ static void runCase(const CaseSpec &spec)
     cs.curReq.store(-1);
     cs.log("\"e\":\"requests_done\"");
     vf::sleepMs(15); // let the client's evictions reach the observer before it stops
-    srv.shutdown();
+    for (auto &sp : srvs) sp->shutdown();
     cs.log("\"e\":\"server_stopped\"");
   } // client destroyed here
   g_case.store(nullptr);
